@@ -187,8 +187,20 @@ type c08World struct {
 	// over a provider. With the dual client only in worlds in which one of the
 	// two networks names providers (c08_dual.go): two sub-searches blocked on
 	// their channels would make the merging select racy.
-	lazy       bool
-	tablePeers int
+	lazy bool
+	// oneHandOver (dual client with a lazy consumer, deterministic scenario): an
+	// answer that names providers is offered to the scheduler only while the
+	// consumer is waiting on the result channel (not parked at "consume"), i.e.
+	// while nothing is queued for it anywhere. So at most one answer handler at a
+	// time sits blocked on a sub-search channel. Otherwise, whenever the merging
+	// goroutine drops an item it has already handed out (an address upgrade the
+	// sub-search repeats, a peer named on both paths) it takes the next one at
+	// once, two blocked handlers are let go in the same instant, and the order
+	// in which they queue up again - the order of the following yields - is the
+	// Go scheduler's (HARNESS pitfall 8). find-providers-dual-racy has no such
+	// restriction.
+	oneHandOver bool
+	tablePeers  int
 	// ownTimeout: the client was built with a time-out of its own for the whole
 	// operation (accelerated client: WithTimeoutPerOperation, drawn by the
 	// scenario); 0: nothing above the message sender bounds a request.
@@ -555,6 +567,11 @@ func (w *c08World) actions() []sim.Action {
 					w.deliveries = append(w.deliveries, c08Delivery{Step: s.Steps, From: r.To, Kind: "rpc-err", RPC: r})
 				}})
 				continue
+			}
+			if w.oneHandOver && w.isSearchReq(r) && r.To != w.u.Self.ID && len(s.ParkedKind("consume")) > 0 {
+				if b := w.beh[r.To]; b != nil && !b.ReqErr && len(b.Provs) > 0 {
+					continue // held back until the consumer is waiting on the channel, see oneHandOver
+				}
 			}
 			acts = append(acts, sim.Action{ID: p.ID, Do: func() {
 				if r.To == w.u.Self.ID {
